@@ -58,6 +58,10 @@ def admits(v: ast.AST, tname: str) -> bool:
     return False
 
 
+def STBU_NAME(it: ast.AST) -> str:
+    return match.role(it, lambda v: isinstance(v, ast.IfExp) and isinstance(v.test, ast.Name) and v.test.id == "is_primitive", "safe_to_be_unknown")
+
+
 def undefined_variable_rules(ctx, m, gcc, r5: str, r8: str) -> None:
     """R5 + R8 of C04 (an undefined variable is an error; interpolate is a fixpoint), parametrised on the rule ids so
     that C11 can re-use the analysis for its 'undefined variable => rejected' clause."""
@@ -80,11 +84,17 @@ def undefined_variable_rules(ctx, m, gcc, r5: str, r8: str) -> None:
         prim_in_h = [(n, l) for n, l in prim if any(n.ast is x for x in ast.walk(h))]
         for (pn, pl) in prim_in_h:
             succ = [mm for (mm, l2) in pn.succ if l2 == pl]
-            okp = bool(succ) and succ[0].kind == "test" and "safe_to_be_unknown" in source.src(succ[0].ast)
+            okp = bool(succ) and succ[0].kind == "test" and STBU_NAME(it) in source.names_in(succ[0].ast)
             ctx.ob(r5, pn.ast, okp,
                    "primitive mode tolerates only variables in safe_to_be_unknown" if okp else
                    "primitive mode tolerates any unknown variable (no membership test in safe_to_be_unknown)")
-    stbu = match.assigned_value(it, "safe_to_be_unknown")
+    # roles in interpolate: the scan position = the name passed as pos to <pattern>.finditer(text, pos); the matches of one
+    # scan = the local bound to sorted(<finditer>); the tolerated names = the local bound to 'set([..]) if is_primitive else set()'
+    SFROM = {c.args[1].id for c in source.calls_in(it) if last_attr(c) == "finditer" and len(c.args) >= 2 and isinstance(c.args[1], ast.Name)}
+    MATCHES = set(match.locals_where(it, lambda v: any(isinstance(c, ast.Call) and last_attr(c) == "finditer" for c in ast.walk(v))))
+    STBU = match.role(it, lambda v: isinstance(v, ast.IfExp) and isinstance(v.test, ast.Name) and v.test.id == "is_primitive", "safe_to_be_unknown")
+    MATCHVAR = set(match.locals_where(it, lambda v: isinstance(v, ast.Subscript) and isinstance(v.value, ast.Name) and v.value.id in MATCHES))
+    stbu = match.assigned_value(it, STBU)
     ok = len(stbu) == 1 and isinstance(stbu[0], ast.IfExp) and isinstance(stbu[0].test, ast.Name) and stbu[0].test.id == "is_primitive" \
         and source.src(stbu[0].body).replace('"', "'") in ("set(['replica'])", "{'replica'}") and source.src(stbu[0].orelse) in ("set()",)
     ctx.ob(r5, stbu[0] if stbu else it, ok, "only 'replica' may stay unknown, and only for primitive graphs" if ok else
@@ -94,7 +104,7 @@ def undefined_variable_rules(ctx, m, gcc, r5: str, r8: str) -> None:
                                                  and match.compare_parts(t)[0].id == "use_symbol_table" and isinstance(match.compare_parts(t)[1], ast.Is)
                                                  and isinstance(match.compare_parts(t)[2], ast.Constant) and match.compare_parts(t)[2].value is False) else None)
     adv = [n for n in c5.nodes if n.kind == "stmt" and isinstance(n.ast, (ast.Assign, ast.AugAssign))
-           and any(isinstance(t, ast.Name) and t.id == "search_from" for t in (n.ast.targets if isinstance(n.ast, ast.Assign) else [n.ast.target]))
+           and any(isinstance(t, ast.Name) and t.id in SFROM for t in (n.ast.targets if isinstance(n.ast, ast.Assign) else [n.ast.target]))
            and not (isinstance(n.ast, ast.Assign) and isinstance(n.ast.value, ast.Constant) and n.ast.value.value == 0)]
     ctx.floor(r8, len(adv), 2, "advances of the scan position in interpolate")
     tol = ign + prim + ust
@@ -102,7 +112,8 @@ def undefined_variable_rules(ctx, m, gcc, r5: str, r8: str) -> None:
         ok_guard = bool(tol) and match.only_via_edges(c5, a, tol)
         v = a.ast.value
         ok_val = isinstance(a.ast, ast.Assign) and isinstance(v, ast.BinOp) and isinstance(v.op, ast.Add) \
-            and source.src(v.left) == "match.start()" and isinstance(v.right, ast.Constant) and v.right.value == 1
+            and isinstance(v.left, ast.Call) and last_attr(v.left) == "start" and isinstance(v.left.func.value, ast.Name) \
+            and v.left.func.value.id in MATCHVAR and isinstance(v.right, ast.Constant) and v.right.value == 1
         ctx.ob(r8, a.ast, ok_guard and ok_val,
                "the scan position moves one character past a reference that is deliberately left unresolved" if ok_guard and ok_val else
                ("the scan position is advanced after a successful substitution / without a tolerance guard: a reference that only "
@@ -114,7 +125,9 @@ def undefined_variable_rules(ctx, m, gcc, r5: str, r8: str) -> None:
     loops = [n for n in source.walk_own(it) if isinstance(n, ast.While) and isinstance(n.test, ast.Constant) and n.test.value is True]
     for lp in loops:
         brk = [b for b in ast.walk(lp) if isinstance(b, ast.Break)]
-        okb = bool(brk) and all(isinstance(source.parent(b), ast.If) and source.src(source.parent(b).test) == "not matches" for b in brk)
+        okb = bool(brk) and all(isinstance(source.parent(b), ast.If) and isinstance(source.parent(b).test, ast.UnaryOp)
+                                and isinstance(source.parent(b).test.op, ast.Not) and isinstance(source.parent(b).test.operand, ast.Name)
+                                and source.parent(b).test.operand.id in MATCHES for b in brk)
         ctx.ob(r8, lp, okb, "the substitution loop ends only when no reference is found" if okb else
                "the substitution loop of interpolate can end while references remain", construct="while True: ... if not matches: break")
 
@@ -177,9 +190,11 @@ def run(ctx) -> None:
     gcv = m.func("FlowIRConcrete.get_component_variables")
     ctx.analysed(gcv)
     cfg = CFG(gcv)
-    ups = [(n, [c for c in own_calls(n.ast) if last_attr(c) == "update" and dotted(c.func.value) == "variables"][0])
+    vret = [r.value.id for r in source.walk_own(gcv) if isinstance(r, ast.Return) and isinstance(r.value, ast.Name)]
+    VARS = vret[0] if vret else "variables"
+    ups = [(n, [c for c in own_calls(n.ast) if last_attr(c) == "update" and dotted(c.func.value) == VARS][0])
            for n in cfg.nodes if n.kind == "stmt" and n.ast is not None
-           and any(last_attr(c) == "update" and dotted(c.func.value) == "variables" for c in own_calls(n.ast))]
+           and any(last_attr(c) == "update" and dotted(c.func.value) == VARS for c in own_calls(n.ast))]
     ups.sort(key=lambda t: (t[1].lineno, t[1].col_offset))
 
     def classify_var_layer(arg: ast.AST) -> str:
@@ -232,14 +247,17 @@ def run(ctx) -> None:
             la = last_attr(n.value)
             if la in OPT_LAYERS:
                 name_src[n.targets[0].id] = la
+    fold_loops = [a for c in source.calls_in(gcc) if last_attr(c) == "override_object" and len(c.args) == 2
+                  for a in source.ancestors(c) if isinstance(a, ast.For) and isinstance(a.iter, ast.Name)]
+    SEQ = fold_loops[0].iter.id if fold_loops else "sequence"
     seq: List[str] = []
     events = []
     for n in source.walk_own(gcc):
-        if isinstance(n, ast.Assign) and any(isinstance(t, ast.Name) and t.id == "sequence" for t in n.targets) and isinstance(n.value, ast.List):
+        if isinstance(n, ast.Assign) and any(isinstance(t, ast.Name) and t.id == SEQ for t in n.targets) and isinstance(n.value, ast.List):
             events.append((n.lineno, [e for e in n.value.elts]))
-        if isinstance(n, ast.AugAssign) and isinstance(n.target, ast.Name) and n.target.id == "sequence" and isinstance(n.value, ast.List):
+        if isinstance(n, ast.AugAssign) and isinstance(n.target, ast.Name) and n.target.id == SEQ and isinstance(n.value, ast.List):
             events.append((n.lineno, [e for e in n.value.elts]))
-        if isinstance(n, ast.Call) and last_attr(n) == "append" and dotted(n.func.value) == "sequence" and n.args:
+        if isinstance(n, ast.Call) and last_attr(n) == "append" and dotted(n.func.value) == SEQ and n.args:
             events.append((n.lineno, [n.args[0]]))
     events.sort(key=lambda t: t[0])
     for _, elts in events:
@@ -259,7 +277,7 @@ def run(ctx) -> None:
     for c in folds:
         lp = None
         for a in source.ancestors(c):
-            if isinstance(a, ast.For) and isinstance(a.iter, ast.Name) and a.iter.id == "sequence":
+            if isinstance(a, ast.For) and isinstance(a.iter, ast.Name) and a.iter.id == SEQ:
                 lp = a
         if lp is not None and isinstance(c.args[0], ast.Name) and isinstance(c.args[1], ast.Name) and isinstance(lp.target, ast.Name) \
                 and c.args[1].id == lp.target.id:
@@ -271,7 +289,7 @@ def run(ctx) -> None:
            construct="for layer in sequence: ret = override_object(ret, layer)")
     # the variables used for interpolation are the layered ones
     st = [n for n in source.walk_own(gcc) if isinstance(n, ast.Assign) and any(
-        isinstance(t, ast.Subscript) and isinstance(t.slice, ast.Constant) and t.slice.value == "variables" and dotted(t.value) == "ret"
+        isinstance(t, ast.Subscript) and isinstance(t.slice, ast.Constant) and t.slice.value == "variables" and isinstance(t.value, ast.Name)
         for t in n.targets)]
     ok = bool(st) and isinstance(st[0].value, ast.Name) and any(
         isinstance(v, ast.Call) and last_attr(v) == "get_component_variables" for v in match.assigned_value(gcc, st[0].value.id))
@@ -282,7 +300,11 @@ def run(ctx) -> None:
     oo = m.func("FlowIR.override_object")
     ctx.analysed(oo)
     c3 = CFG(oo)
-    merges = match.nodes_calling(c3, lambda c: call_name(c) == "merge_ret" and c.args)
+    # role: the continuation unpacked from the work list  old, new, <merge> = remaining.pop(0)
+    unp = [n.targets[0].elts[2].id for n in source.walk_own(oo) if isinstance(n, ast.Assign) and isinstance(n.targets[0], ast.Tuple)
+           and len(n.targets[0].elts) == 3 and isinstance(n.targets[0].elts[2], ast.Name) and isinstance(n.value, ast.Call) and last_attr(n.value) == "pop"]
+    MERGE = unp[0] if unp else "merge_ret"
+    merges = match.nodes_calling(c3, lambda c: call_name(c) == MERGE and c.args)
     nn_tests = match.test_nodes(c3, lambda t: "T" if (match.compare_parts(t) and isinstance(match.compare_parts(t)[0], ast.Name)
                                                       and match.compare_parts(t)[0].id == "new" and isinstance(match.compare_parts(t)[1], ast.IsNot)
                                                       and isinstance(match.compare_parts(t)[2], ast.Constant) and match.compare_parts(t)[2].value is None) else None)
@@ -293,7 +315,7 @@ def run(ctx) -> None:
         ctx.ob("C04.R3-new-wins", oo, False, "override_object no longer decides scalar values by 'new is not None': the higher layer does not "
                "reliably win", construct="test 'new is not None' (missing)")
     for mn in merges:
-        call = [c for c in own_calls(mn.ast) if call_name(c) == "merge_ret"][0]
+        call = [c for c in own_calls(mn.ast) if call_name(c) == MERGE][0]
         arg = source.src(call.args[0])
         if arg == "new":
             ok = match.only_via_edges(c3, mn, nn_tests) and match.only_via_edges(c3, mn, [(n, "F") for n, _ in dict_tests])
@@ -307,20 +329,26 @@ def run(ctx) -> None:
             ok = match.only_via_edges(c3, mn, dict_tests)
             ctx.ob("C04.R3-new-wins", call, ok, "dictionaries start from the lower layer and are refined key by key" if ok else
                    "unexpected merge_ret(%s)" % arg)
-    novel = [n for n in source.walk_own(oo) if isinstance(n, ast.For) and isinstance(n.iter, ast.Name) and n.iter.id == "keys_novel"]
-    ok = bool(novel) and any(isinstance(s, ast.Assign) and source.src(s.value) == "new[key]" for s in novel[0].body)
+    KCOMMON = match.role(oo, lambda v: "intersection" in source.src(v) or (isinstance(v, ast.BinOp) and isinstance(v.op, ast.BitAnd)), "keys_common")
+    KNOVEL = match.role(oo, lambda v: (isinstance(v, ast.Call) and last_attr(v) == "difference") or (isinstance(v, ast.BinOp) and isinstance(v.op, ast.Sub)
+                                                                                                      and "keys" in source.src(v)), "keys_novel")
+    novel = [n for n in source.walk_own(oo) if isinstance(n, ast.For) and isinstance(n.iter, ast.Name) and n.iter.id == KNOVEL]
+    ok = bool(novel) and isinstance(novel[0].target, ast.Name) and any(
+        isinstance(s, ast.Assign) and source.src(s.value) == "new[%s]" % novel[0].target.id for s in novel[0].body)
     ctx.ob("C04.R3-new-wins", novel[0] if novel else oo, ok, "keys only the higher layer defines are copied" if ok else
            "novel keys of the higher layer are not copied", construct="for key in keys_novel: ret[key] = new[key]")
-    common = [n for n in source.walk_own(oo) if isinstance(n, ast.For) and isinstance(n.iter, ast.Name) and n.iter.id == "keys_common"]
+    common = [n for n in source.walk_own(oo) if isinstance(n, ast.For) and isinstance(n.iter, ast.Name) and n.iter.id == KCOMMON]
     ok = False
     if common:
         tuples = [x for x in ast.walk(common[0]) if isinstance(x, ast.Tuple) and len(x.elts) == 3]
-        ok = any(source.src(t.elts[0]) == "old[key]" and source.src(t.elts[1]) == "new[key]" for t in tuples)
+        kv = common[0].target.id if isinstance(common[0].target, ast.Name) else "key"
+        ok = any(source.src(t.elts[0]) == "old[%s]" % kv and source.src(t.elts[1]) == "new[%s]" % kv for t in tuples)
     ctx.ob("C04.R3-new-wins", common[0] if common else oo, ok, "common keys are merged recursively as (old[key], new[key])" if ok else
            "common keys are not merged recursively in (old, new) order", construct="for key in keys_common: (old[key], new[key])")
-    kd = {nm: match.assigned_value(oo, nm) for nm in ("keys_common", "keys_novel")}
+    kd = {"keys_common": match.assigned_value(oo, KCOMMON), "keys_novel": match.assigned_value(oo, KNOVEL)}
     ok = any("intersection" in source.src(v) for v in kd["keys_common"]) and any(
-        isinstance(v, ast.Call) and last_attr(v) == "difference" and dotted(v.func.value) == "keys_new" for v in kd["keys_novel"])
+        isinstance(v, ast.Call) and last_attr(v) == "difference" and isinstance(v.func.value, ast.Name)
+        and any("new" in source.names_in(w) for w in match.assigned_value(oo, v.func.value.id)) for v in kd["keys_novel"])
     ctx.ob("C04.R3-new-wins", oo, ok, "keys_common / keys_novel partition the higher layer's keys" if ok else
            "keys_common / keys_novel no longer partition the higher layer's keys", construct="keys_common = old&new, keys_novel = new-old")
 
@@ -355,7 +383,8 @@ def run(ctx) -> None:
     # ---------------- R6 -------------------------------------------------------------------------------
     cct = m.func("FlowIR.convert_component_types")
     ctx.analysed(cct)
-    et = match.assigned_value(cct, "expected_types")
+    ETN = match.role(cct, lambda v: isinstance(v, ast.Dict) and len(v.keys) >= 3, "expected_types")
+    et = match.assigned_value(cct, ETN)
     ctx.require(len(et) == 1 and isinstance(et[0], ast.Dict), "anchor missing: expected_types literal in convert_component_types")
     conv = schema_leaves(et[0])
     gb = m.functions.get("FlowIR.type_flowir_component.generate_blueprint")
